@@ -537,6 +537,8 @@ func runC03(c *Ctx) {
 	c04NormaliseTotal(c)
 	c04NilOutSameSide(c)
 	c03SubsetByPair(c, "SUBSET-BY-PAIR")
+	c03IndexAccumulates(c, "INDEX-ACCUMULATES")
+	c04SiblingSkipGuards(c, "SIBLING-SKIP-GUARDS")
 }
 
 // enclosingStmtList returns the innermost block/clause that contains n.
